@@ -37,8 +37,28 @@ def _crate_for(repo):
     return d, os.path.join(VERIF, '.cache', 'replay-target-' + tag)
 
 
+GROUPS = ['wire', 'cm', 'crypto', 'conn', 'timeout']
+# which group of library hooks a scenario needs (none: public API only)
+SCENARIO_GROUP = dict(tie_break='cm', backoff_update='cm', backoff_after='cm', read_version='wire', write_version='wire', max_frame='wire', write_request='wire',
+                      write_response='wire', read_request='wire', read_response='wire', roundtrip_request='wire', roundtrip_response='wire', decode_sweep='wire',
+                      write_sequence='wire', parse_timeout='timeout', duration_to_timeout='timeout', timeout_select='timeout', cert_corpus='crypto')
+# where the wrappers of a group live: a compile error there after an edit disables that group only
+GROUP_FILES = dict(wire=['network/wire.rs'], cm=['network/connection_manager.rs'], crypto=['crypto.rs'], conn=['connection.rs', 'network/peer.rs'], timeout=['verif_hooks.rs'])
+_groups = {}
+
+
+def _cargo_build(crate, target, groups):
+    env = dict(os.environ, CARGO_NET_OFFLINE='true', CARGO_TARGET_DIR=target)
+    cmd = ['cargo', 'build', '--offline', '--quiet', '--no-default-features']
+    if groups:
+        cmd += ['--features', ','.join('hooks-' + g for g in groups)]
+    return subprocess.run(cmd, cwd=crate, env=env, capture_output=True, text=True, timeout=1800)
+
+
 def build(repo='/repo'):
-    """(re)builds the replay binary against the given checkout's current working tree; cargo decides what is stale"""
+    """(re)builds the replay binary against the given checkout's current working tree; cargo decides what is stale.  If the wrappers of a
+    hook group no longer compile on this tree (an edit changed a signature they call), the binary is built WITHOUT that group: scenarios
+    that use only the public API, or other groups, stay available"""
     if _built.get(repo):
         return _built[repo]
     if not os.path.isdir(os.path.join(repo, 'crates', 'anemo')):
@@ -49,16 +69,32 @@ def build(repo='/repo'):
         lock = '/repo/Cargo.lock'
     if os.path.exists(lock):
         shutil.copy(lock, os.path.join(crate, 'Cargo.lock'))
-    env = dict(os.environ, CARGO_NET_OFFLINE='true', CARGO_TARGET_DIR=target)
-    p = subprocess.run(['cargo', 'build', '--offline', '--quiet'], cwd=crate, env=env, capture_output=True, text=True, timeout=1800)
-    if p.returncode != 0:
+    groups, dropped = list(GROUPS), {}
+    for _round in range(4):
+        p = _cargo_build(crate, target, groups)
+        if p.returncode == 0:
+            break
+        bad = [g for g in groups if any(('src/' + f) in p.stderr for f in GROUP_FILES[g])]
+        if not bad:
+            bad = list(groups)          # cannot tell which wrappers broke: fall back to the public API only
+        if not groups:
+            raise ReplayUnavailable('replay crate does not build against the current tree: ' + p.stderr[-1500:])
+        for g in bad:
+            dropped[g] = [l for l in p.stderr.split('\n') if l.startswith('error')][:2]
+        groups = [g for g in groups if g not in bad]
+    else:
         raise ReplayUnavailable('replay crate does not build against the current tree: ' + p.stderr[-1500:])
     _built[repo] = os.path.join(target, 'debug', 'verif-replay')
+    _groups[repo] = (groups, dropped)
     return _built[repo]
 
 
 def run(scenario, args, repo='/repo', timeout=300):
     b = build(repo)
+    need = SCENARIO_GROUP.get(scenario)
+    groups, dropped = _groups.get(repo, (GROUPS, {}))
+    if need and need not in groups:
+        raise ReplayUnavailable('scenario %s needs the %s hooks of the library, which do not compile on this tree (%s)' % (scenario, need, '; '.join(dropped.get(need, []))[:300]))
     try:
         p = subprocess.run([b, scenario, '-'], input=json.dumps(args), capture_output=True, text=True, timeout=timeout)
     except subprocess.TimeoutExpired:
